@@ -21,6 +21,13 @@ type Spec struct {
 	// that slice their reads and (first byte odd) return their last bytes
 	// together with io.EOF, as zip-backed and network pools do.
 	Src []byte `json:"src,omitempty"`
+	// SigFile: the old build's signature is not computed from the old directory but read back from the
+	// signature stream a previous diff (nothing -> old build, same compression) wrote for it, the way
+	// butler diffs against a downloaded signature.
+	SigFile bool `json:"sig_file,omitempty"`
+	// Stale: the output directory is not empty - every file of the new build already exists there with
+	// other, longer content (the fresh bowl must truncate pre-existing files)
+	Stale bool `json:"stale,omitempty"`
 }
 
 // GenComp draws a compression setting over all registered algorithms and the
@@ -66,6 +73,19 @@ func check(s Spec) h.Result {
 		j := h.NewJitter(s.Src, 0)
 		dopts = &h.DiffOpts{WrapPool: func(p lake.Pool) lake.Pool { return &h.JitterPool{Pool: p, J: j} }}
 	}
+	if s.SigFile && !(s.Comp.Algo == 2 && (s.Comp.Q < -2 || s.Comp.Q > 9)) {
+		ed := filepath.Join(d, "empty")
+		os.MkdirAll(ed, 0o755)
+		prev, err := h.Diff(ed, od, s.Comp, nil)
+		if err != nil {
+			return h.Failf("diff nothing -> old build failed: %v", err)
+		}
+		if dopts == nil {
+			dopts = &h.DiffOpts{}
+		}
+		dopts.TargetSig = prev.Sig
+		cl = append(cl, "old-signature:read-back-from-a-signature-stream")
+	}
 	df, err := h.Diff(od, nd, s.Comp, dopts)
 	if err != nil {
 		if s.Comp.Algo == 2 && (s.Comp.Q < -2 || s.Comp.Q > 9) {
@@ -99,6 +119,24 @@ func check(s Spec) h.Result {
 	if st.MaxData >= 4<<20 {
 		cl = append(cl, "op:data-run>=4MiB")
 	}
+	if s.Stale {
+		n := 0
+		for _, e := range s.Pair.New {
+			if e.Kind != h.KFile {
+				continue
+			}
+			fp := filepath.Join(out, filepath.FromSlash(e.Path))
+			if os.MkdirAll(filepath.Dir(fp), 0o755) == nil {
+				junk := h.Content{{Src: 9, Off: 31, Len: e.C.Len() + 1 + (e.C.Len()*7)%5000}}.Bytes()
+				if os.WriteFile(fp, junk, 0o644) == nil {
+					n++
+				}
+			}
+		}
+		if n > 0 {
+			cl = append(cl, "output:pre-existing-longer-files")
+		}
+	}
 	if err := h.ApplyFresh(df.Patch, od, out, nil); err != nil {
 		return h.Result{Fail: fmt.Sprintf("fresh apply failed: %v", err), Classes: cl}
 	}
@@ -116,6 +154,8 @@ var prop = h.Prop[Spec]{
 		if rapid.IntRange(0, 2).Draw(t, "sliced-source") == 0 {
 			s.Src = rapid.SliceOfN(rapid.Byte(), 1, 12).Draw(t, "src-jitter")
 		}
+		s.SigFile = rapid.IntRange(0, 3).Draw(t, "old-signature-from-stream") == 0
+		s.Stale = rapid.IntRange(0, 4).Draw(t, "stale-output") == 0
 		return s
 	},
 	Check: check,
